@@ -71,6 +71,11 @@ class Host:
         self.ovs = {n: overlays.make(self.node, n) for n in names}
         for o in self.ovs.values():
             hook_overlay(o)
+        # the statistics decorator the service uses when statistics are on: a generic listener that parses every datagram
+        from ipv8.messaging.interfaces.statistics_endpoint import StatisticsEndpoint  # noqa: PLC0415
+        self.stats = StatisticsEndpoint(self.node.endpoint)
+        for o in self.ovs.values():
+            self.stats.enable_community_statistics(o.get_prefix(), True)
         self.sniffer = Sniffer(self.node.endpoint)
         self.known_src = self.friend.address
         self.unknown_src = UDPv4Address("66.66.66.66", 6666)
